@@ -559,5 +559,5 @@ func c07Phase(ended string) {
 func c07SpentString() string {
 	return "wall per generator phase: " + c07Phases + "\n" + fmt.Sprintf("time in oracle execs: alloc %d calls %.1f s, print %d calls %.1f s, hash %d calls %.1f s\n",
 		c07Calls["c07.alloc"], c07Spent["c07.alloc"].Seconds(), c07Calls["c07.print"], c07Spent["c07.print"].Seconds(), c07Calls["c07.hash"], c07Spent["c07.hash"].Seconds()) +
-		fmt.Sprintf("                      alias %d calls %.1f s\n", c07Calls["c07.alias"], c07Spent["c07.alias"].Seconds())
+		fmt.Sprintf("                      alias %d calls %.1f s, text %d calls %.1f s\n", c07Calls["c07.alias"], c07Spent["c07.alias"].Seconds(), c07Calls["c07.text"], c07Spent["c07.text"].Seconds())
 }
